@@ -177,7 +177,8 @@ def pf_multicommodity(D, T=3, freq='h', unit='h', factors=(1.0, 0.5), take=None,
     """MultiCommodityContract delivering to A and B, one market on each; optional min/max take period (k0,k1)"""
     eao = lift.import_eao()
     tg = grid(T, freq, unit)
-    nA, nB = nodes('A', 'B')
+    nds = nodes(*['A', 'B', 'C', 'E'][:len(factors)])       # one node per commodity (2 by default; 3 or 4 with longer `factors`)
+    nA, nB = nds[0], nds[1]
     f = [D.coef('mc_f%d' % i, v) for i, v in enumerate(factors)]
     kw = {}
     if take is not None:
@@ -185,11 +186,12 @@ def pf_multicommodity(D, T=3, freq='h', unit='h', factors=(1.0, 0.5), take=None,
         kw['min_take'] = mk_take(tg, take[0], take[1], D('mc_mintake', hi=0))
     s, e = window(tg, win) if win is not None else (None, None)
     lo = D('mc_min', hi=0); hi = D('mc_max', lo=0)
-    mc = eao.assets.MultiCommodityContract(name='mc', nodes=[nA, nB], price='r', min_cap=lo, max_cap=hi,
+    mc = eao.assets.MultiCommodityContract(name='mc', nodes=list(nds), price='r', min_cap=lo, max_cap=hi,
                                            extra_costs=D('mc_ec', lo=0), factors_commodities=f, start=s, end=e, **kw)
     m1 = mk_market(D, 'mA', nA, T, 'p')
     m2 = mk_market(D, 'mB', nB, T, 'q')
-    pf = eao.portfolio.Portfolio([m1, mc, m2])
+    more = [mk_market(D, 'm' + n_.name, n_, T, 'q') for n_ in nds[2:]]
+    pf = eao.portfolio.Portfolio([m1, mc, m2] + more)
     return Shape(pf, tg, prices_for(D, ['p', 'q', 'r'], T))
 
 
@@ -387,7 +389,7 @@ def pf_scaled(D, T=3, base='storage', fixed=False, win=None, unit='h', freq='h')
     return Shape(pf, tg, prices_for(D, pr, T))
 
 
-def pf_structured(D, T=3, inner_win=None, outer_win=None, two_internal=False, inner_win_all=False):
+def pf_structured(D, T=3, inner_win=None, outer_win=None, two_internal=False, inner_win_all=False, two_external=False):
     """StructuredAsset wrapping {storage on internal node I, transport I->E (, transport I->J, market J)}; outside: market on E"""
     eao = lift.import_eao()
     tg = grid(T)
@@ -401,10 +403,18 @@ def pf_structured(D, T=3, inner_win=None, outer_win=None, two_internal=False, in
         inner.append(mk_transport(D, 'itr2', nJ, nI, eff=None, costs=False, win=w2, tg=tg))
         inner.append(mk_market(D, 'imk', nJ, T, 'q', win=w2, tg=tg))
         pr.append('q')
+    outside = []
+    ext = nE
+    if two_external:
+        # a second connection to the outside: transport from the internal node to a second external node F
+        (nF,) = nodes('F')
+        inner.append(mk_transport(D, 'itrF', nI, nF, eff=None, win=w2, tg=tg))
+        ext = [nE, nF]
+        outside.append(mk_market(D, 'mF', nF, T, 'q')); pr.append('q') if 'q' not in pr else None
     ipf = eao.portfolio.Portfolio(inner)
     s, e = window(tg, outer_win) if outer_win is not None else (None, None)
-    sa = eao.portfolio.StructuredAsset(name='struct', nodes=nE, portfolio=ipf, start=s, end=e)
-    pf = eao.portfolio.Portfolio([sa, mk_market(D, 'mE', nE, T, 'p')])
+    sa = eao.portfolio.StructuredAsset(name='struct', nodes=ext, portfolio=ipf, start=s, end=e)
+    pf = eao.portfolio.Portfolio([sa, mk_market(D, 'mE', nE, T, 'p')] + outside)
     return Shape(pf, tg, prices_for(D, pr, T), meta=dict(inner=inner))
 
 
